@@ -111,6 +111,9 @@ func solve(dir string, idx int, query string, quickT, fullT time.Duration, wantS
 	}
 	go func() { wg.Wait(); close(ch) }()
 	best := r{solvers[0].name, firstStatus, firstOut, secs}
+	seen := false
+	// preference among undecided answers: sat (a model exists) > unknown > timeout > error
+	rank := map[string]int{"sat": 4, "unknown": 3, "timeout": 2, "error": 1}
 	for x := range ch {
 		res.Attempts = append(res.Attempts, fmt.Sprintf("%s:%s:%.2fs", x.name, x.st, x.secs))
 		if decisive(x.st) {
@@ -118,11 +121,9 @@ func solve(dir string, idx int, query string, quickT, fullT time.Duration, wantS
 			cancel()
 			return res
 		}
-		if x.st == "sat" && best.st != "sat" {
+		if !seen || rank[x.st] > rank[best.st] {
 			best = x
-		}
-		if x.st == "error" && best.st == "unknown" && best.out == "" {
-			best = x
+			seen = true
 		}
 	}
 	res.Status, res.Solver, res.Seconds, res.Output = best.st, best.name, best.secs, best.out
